@@ -14,11 +14,11 @@ git -C /repo worktree add --detach "$WT" HEAD >/dev/null 2>&1 || { echo "cannot 
 trap 'git -C /repo worktree remove --force "$WT" >/dev/null 2>&1' EXIT
 if [ -n "$DEMO" ]; then
   mkdir -p "$WT/$PKG"; cp "$DEMO" "$WT/$PKG/zz_seed_demo_test.go"
-  (cd "$WT" && go test -count=1 -run "$RUN" "./$PKG/" >/tmp/seed_eval_clean.log 2>&1); CLEAN=$?
+  (cd "$WT" && go test -vet=off -count=1 -run "$RUN" "./$PKG/" >/tmp/seed_eval_clean.log 2>&1); CLEAN=$?
 fi
 (cd "$WT" && git apply "$PATCH") || { echo "patch does not apply"; exit 2; }
 if [ -n "$DEMO" ]; then
-  (cd "$WT" && go test -count=1 -run "$RUN" "./$PKG/" >/tmp/seed_eval_patched.log 2>&1); PATCHED=$?
+  (cd "$WT" && go test -vet=off -count=1 -run "$RUN" "./$PKG/" >/tmp/seed_eval_patched.log 2>&1); PATCHED=$?
   rm -f "$WT/$PKG/zz_seed_demo_test.go"
   (cd "$WT" && git checkout -- go.mod go.sum 2>/dev/null)
   echo "demo: clean_exit=$CLEAN patched_exit=$PATCHED (want 0 / non-zero)"
